@@ -100,7 +100,7 @@ class Fundamentals:
         if volatility < 0.0:
             raise ValueError("volatility must be non-negative")
         self.volatilities[market_id] = volatility
-        self._generated_until = time
+        self._generated_until = min(time, self._generated_until)
 
     def change_drift(self, market_id: int, drift: float, time: int = 0) -> None:
         """change drift.
@@ -114,7 +114,7 @@ class Fundamentals:
             None
         """
         self.drifts[market_id] = drift
-        self._generated_until = time
+        self._generated_until = min(time, self._generated_until)
 
     def set_correlation(
         self, market_id1: int, market_id2: int, corr: float, time: int = 0
@@ -138,7 +138,7 @@ class Fundamentals:
             self.correlation[(market_id2, market_id1)] = corr
         else:
             self.correlation[(market_id1, market_id2)] = corr
-        self._generated_until = time
+        self._generated_until = min(time, self._generated_until)
 
     def remove_correlation(
         self, market_id1: int, market_id2: int, time: int = 0
@@ -159,7 +159,7 @@ class Fundamentals:
             self.correlation.pop((market_id2, market_id1))
         else:
             self.correlation.pop((market_id1, market_id2))
-        self._generated_until = time
+        self._generated_until = min(time, self._generated_until)
 
     def _generate_log_return(
         self, generate_target_ids: List[int], length: int
